@@ -228,12 +228,13 @@ def match_known(known, pid, text):
 # ----------------------------------------------------------------------------- evidence
 
 def write_evidence(pid, tier, seed, coverage, assumptions, wall, violations):
-    os.makedirs(os.path.join(VERIF, "evidence"), exist_ok=True)
+    evdir = os.environ.get("VERIF_EVIDENCE_DIR") or os.path.join(VERIF, "evidence")
+    os.makedirs(evdir, exist_ok=True)
     ev = {"property_id": pid, "tier": tier, "seed": seed, "level": "proof", "coverage": coverage,
           "assumptions": assumptions, "wall_s": round(wall, 2), "violations": violations}
-    tmp = os.path.join(VERIF, "evidence", pid + ".json.tmp")
+    tmp = os.path.join(evdir, pid + ".json.tmp")
     json.dump(ev, open(tmp, "w"), indent=1)
-    os.replace(tmp, os.path.join(VERIF, "evidence", pid + ".json"))
+    os.replace(tmp, os.path.join(evdir, pid + ".json"))
 
 
 # ----------------------------------------------------------------------------- translators
